@@ -8,4 +8,9 @@ AllDecl  == [P2 -> {"none", "f32", "f64"}]
 HowsAll  == {"to(dtype)", "method", "to(tensor)"}
 ViasAll  == {"primary", "derivative"}
 Unbounded == 1000000
+P1 == {"p1"}
+BufsK1 == [p \in P1 |-> {"b1"}]
+BufsK2 == [p \in P1 |-> {"b1", "b2"}]
+BufsK3 == [p \in P1 |-> {"b1", "b2", "b3"}]
+OneDecl == [P1 -> {"none", "f16", "bf16", "f32", "f64"}]
 =============================================================================
